@@ -38,6 +38,63 @@ def run(ctx):
     ctx.attempt(_r3)
     ctx.attempt(_r4)
     ctx.attempt(_r5)
+    ctx.attempt(_r6)
+    ctx.attempt(_r7)
+
+
+def _r6(ctx):
+    """No Miner / Fatigue method writes into the curve data it was called on (a second evaluation would differ)."""
+    from ..effects import Effects
+    prog = ctx.prog
+    ctx.rule("R-C11-6", floor=8, what="Miner / Fatigue methods do not write into the curve data of the object they are called on")
+    eff = Effects(prog)
+    classes = [prog.cls(MINER + ":MinerBase"), prog.cls(MINER + ":MinerElementary"), prog.cls(MINER + ":MinerHaibach"),
+               prog.cls("pylife.strength.fatigue:Fatigue")]
+    n = 0
+    for ci in classes:
+        for name, defs in ci.methods.items():
+            f = defs[-1]
+            if name in ("__init__", "_validate"):
+                continue
+            summ = eff.summary(f)
+            if summ is None:
+                raise AnalysisError("effect summary of %s unavailable" % f.key)
+            bad = [e for e in summ["effects"] if e.origin == ("self", "_obj")]
+            n += 1
+            if bad:
+                e = bad[0]
+                node = next((st for st in walk_function(f.node) if isinstance(st, ast.stmt) and st.lineno == e.lineno), f.node)
+                ctx.violated(f, node, "%s.%s writes into the curve data of the object it is called on (%s): evaluating the same "
+                             "object again gives another lifetime" % (ci.name, name, e.kind), text="%s.%s %s" % (ci.name, name, e.kind))
+            else:
+                ctx.holds(f, f.node, "%s.%s leaves the curve data untouched" % (ci.name, name))
+
+
+def _r7(ctx):
+    """Member-order independence: no order-sensitive operation on the collective's member arrays."""
+    from ..orders import Orders
+    prog = ctx.prog
+    ctx.rule("R-C11-7", floor=2, what="damage and lifetime multiples are independent of the order of the collective's members")
+    mods = {"pylife.strength.miner", "pylife.strength.solidity", "pylife.strength.fatigue"}
+
+    def row_source(e, fi):
+        return isinstance(e, ast.Attribute) and e.attr in ("amplitude", "cycles", "meanstress", "upper", "lower", "R") and \
+            isinstance(e.value, ast.Name) and e.value.id in fi.params and e.value.id not in ("self",)
+    o = Orders(prog, mods, row_source=row_source, sorted_input_sinks=True)
+    n = o.run()
+    seen = set()
+    for fi, s_, node, msg in o.sinks:
+        k = (fi.key, norm_text(node))
+        if k in seen:
+            continue
+        seen.add(k)
+        ctx.violated(fi, s_, "%s: the result would depend on the order of the collective's members" % msg, text=norm_text(node))
+    if o.flows < 6:
+        raise AnalysisError("only %d member-array flows seeded in the Miner modules" % o.flows)
+    ctx.holds("pylife.strength.miner", None, "%d functions scanned, %d member-array flows, %d order-sensitive uses" % (n, o.flows, len(seen)))
+    for fi, s_, call, ks in o.pairings:
+        if set(ks) <= {"ROW"}:
+            ctx.holds(fi, s_, "pairwise reduction over aligned member arrays: %s" % norm_text(call)[:70])
 
 
 def _fold(env):
@@ -451,6 +508,31 @@ def variants():
         f.body[-1].value.left = parse_expr("n_full_damage.sum()")
         return True
     out.append(witness("numerator sums only the full-damage classes", MP, numerator, "R-C11-5"))
+
+    def gassner_nocopy(tree):
+        f = find_func(tree, "MinerElementary.gassner")
+        for st in f.body:
+            if isinstance(st, ast.Assign) and isinstance(st.value, ast.Call) and isinstance(st.value.func, ast.Attribute) and \
+                    st.value.func.attr == "copy":
+                st.value = st.value.func.value
+                return True
+        return False
+    out.append(witness("gassner() shifts ND of the object itself", MP, gassner_nocopy, "R-C11-6"))
+
+    def split_by_position(tree):
+        f = find_func(tree, "MinerHaibach.lifetime_multiple")
+        for st in f.body:
+            if isinstance(st, ast.Assign) and isinstance(st.targets[0], ast.Name) and st.targets[0].id == "n_full_damage":
+                st.value = parse_expr("cycles.iloc[np.searchsorted(s_a, x_D):]")
+                return True
+        return False
+    out.append(witness("full-damage classes taken by position in unsorted data", MP, split_by_position, "R-C11-7"))
+
+    def first_member(tree):
+        f = find_func(tree, "haibach")
+        f.body.insert(1, parse_stmt("ref = collective.amplitude.iloc[0]"))
+        return True
+    out.append(witness("reference amplitude from the first member", SP, first_member, "R-C11-7"))
 
     # twins
     def clip(tree):
